@@ -14,22 +14,28 @@ def run(ctx):
     # design level: the implementation-shaped scorer (suffix merge, longest-match iteration, padded buffer, cache) refines RefScore
     from props import _impl
     _impl.design(ctx)
-    cases = _score.generate(ctx, ctx.quick)
-    hcases = []
-    for i, (fam, c) in enumerate(cases):
-        hcases.append(_score.to_history(i, fam, c))
-        for r in c["runs"]:
-            ctx.evaluations += 1
-            if any(s != c["model"]["bias"] for s in r["expect"]["scores"]):
-                ctx.nontriv((i, tuple(r["text"])))
-        if i % 401 == 3:
-            r = c["runs"][-1]
-            ctx.sample({"family": fam, "model": c["model"], "text": r["text"], "expected_scores": r["expect"]["scores"]}, limit=4)
-
     def sig(c, fail):
         return f"C01:{c['key']}:step{fail[0]}:{fail[1]}"
-    bad = vlib.check_histories(ctx, binp, "C01-families", hcases, sigfn=sig)
-    ctx.add_part(replayed="model families", models=len(hcases), failing_models=bad)
+    total_models = total_bad = 0
+    # one family at a time (generate, replay, compare, discard): the thorough tier has ~10^6 (model, text) pairs
+    for fam_name in _score.families(ctx.quick):
+        cases = _score.generate(ctx, ctx.quick, only=[fam_name])
+        hcases = []
+        for i, (fam, c) in enumerate(cases):
+            hcases.append(_score.to_history(i, fam, c))
+            for r in c["runs"]:
+                ctx.evaluations += 1
+                if any(s != c["model"]["bias"] for s in r["expect"]["scores"]):
+                    ctx.nontrivial_count += 1
+            if i % 401 == 3:
+                r = c["runs"][-1]
+                ctx.sample({"family": fam, "model": c["model"], "text": r["text"], "expected_scores": r["expect"]["scores"]}, limit=4)
+        _score._cache.pop((fam_name, ctx.quick), None)
+        del cases
+        total_bad += vlib.check_histories(ctx, binp, f"C01-{fam_name}", hcases, sigfn=sig)
+        total_models += len(hcases)
+        del hcases
+    ctx.add_part(replayed="model families", models=total_models, failing_models=total_bad)
     random_traces(ctx, binp)
 
 
